@@ -109,7 +109,9 @@ func (vc *VerificationCache) Verify(ctx context.Context, dissByPerm map[Macaroon
 		hdr := String(append(diss, perm)...)
 
 		if v, ok := vc.cache.Get(hdr); ok && v.expiration.After(time.Now()) {
-			ret[perm] = v.vm
+			// hand out a fresh result around the caller's own token: bundles
+			// modify their tokens in place (Attenuate)
+			ret[perm] = &VerifiedMacaroon{perm.Unverified(), macaroon.NewCaveatSet(v.vm.Caveats.Caveats...)}
 			delete(dissByPerm, perm)
 		} else {
 			hdrByPerm[perm] = hdr
@@ -121,7 +123,7 @@ func (vc *VerificationCache) Verify(ctx context.Context, dissByPerm map[Macaroon
 
 		if vm, ok := res.(*VerifiedMacaroon); ok {
 			vc.cache.Add(hdrByPerm[perm], &cacheEntry{
-				vm,
+				&VerifiedMacaroon{vm.UnverifiedMacaroon, macaroon.NewCaveatSet(vm.Caveats.Caveats...)},
 				time.Now().Add(vc.ttl),
 			})
 		}
